@@ -4,30 +4,37 @@
 package harness
 
 import (
+	"crypto/sha256"
 	"encoding/json"
 	"fmt"
 	"math/big"
 	"math/rand"
 	"os"
 	"path/filepath"
+	"slices"
 	"sort"
 	"strconv"
 	"strings"
 	"testing"
 
+	"github.com/nspcc-dev/neo-go/pkg/config"
 	"github.com/nspcc-dev/neo-go/pkg/core"
 	"github.com/nspcc-dev/neo-go/pkg/core/block"
 	"github.com/nspcc-dev/neo-go/pkg/core/interop/storage"
 	"github.com/nspcc-dev/neo-go/pkg/core/state"
 	"github.com/nspcc-dev/neo-go/pkg/core/transaction"
+	"github.com/nspcc-dev/neo-go/pkg/crypto/keys"
 	"github.com/nspcc-dev/neo-go/pkg/neotest"
 	"github.com/nspcc-dev/neo-go/pkg/neotest/chain"
+	"github.com/nspcc-dev/neo-go/pkg/smartcontract"
 	"github.com/nspcc-dev/neo-go/pkg/smartcontract/callflag"
 	"github.com/nspcc-dev/neo-go/pkg/smartcontract/trigger"
 	"github.com/nspcc-dev/neo-go/pkg/util"
 	"github.com/nspcc-dev/neo-go/pkg/vm/stackitem"
 	"github.com/nspcc-dev/neo-go/pkg/vm/vmstate"
+	"github.com/nspcc-dev/neo-go/pkg/wallet"
 	"github.com/stretchr/testify/require"
+	"go.uber.org/zap"
 )
 
 // RepoDir is the tree under test.
@@ -76,16 +83,86 @@ func NewEnv(t testing.TB) *Env {
 	return &Env{T: t, E: e, BC: bc}
 }
 
+// EnvN is a chain whose committee consists of n keys owned by the harness, so
+// that the Alphabet account (2n/3+1 of n), the committee-majority account
+// (n/2+1 of n) and single members can sign separately.
+type EnvN struct {
+	*Env
+	Keys     []*keys.PrivateKey // sorted by public key, as neo.GetCommittee() returns them
+	Alphabet neotest.Signer     // 2n/3+1 multisig: common.AlphabetAddress()
+	Majority neotest.Signer     // n/2+1 multisig: common.CommitteeAddress()
+}
+
+// HarnessKey returns the i-th deterministic private key of the harness.
+func HarnessKey(i int) *keys.PrivateKey {
+	h := sha256.Sum256([]byte(fmt.Sprintf("verif-harness-key-%d", i)))
+	k, err := keys.NewPrivateKeyFromBytes(h[:])
+	if err != nil {
+		panic(err)
+	}
+	return k
+}
+
+// MultiSignerOf builds the m-of-n multisig signer over ks (signs with the first m keys in key order).
+func MultiSignerOf(m int, ks []*keys.PrivateKey) neotest.Signer {
+	pubs := make(keys.PublicKeys, len(ks))
+	for i, k := range ks {
+		pubs[i] = k.PublicKey()
+	}
+	accs := make([]*wallet.Account, len(ks))
+	for i, k := range ks {
+		a := wallet.NewAccountFromPrivateKey(k)
+		if err := a.ConvertMultisig(m, slices.Clone(pubs)); err != nil {
+			panic(err)
+		}
+		accs[i] = a
+	}
+	return neotest.NewMultiSigner(accs...)
+}
+
+// NewEnvN creates a chain with a committee (= validators) of n harness keys.
+func NewEnvN(t testing.TB, n int) *EnvN {
+	ks := make([]*keys.PrivateKey, n)
+	for i := range ks {
+		ks[i] = HarnessKey(i)
+	}
+	sort.Slice(ks, func(i, j int) bool { return ks[i].PublicKey().Cmp(ks[j].PublicKey()) < 0 })
+	hexes := make([]string, n)
+	for i, k := range ks {
+		hexes[i] = k.PublicKey().StringCompressed()
+	}
+	bc, _, _ := chain.NewMultiWithOptions(t, &chain.Options{
+		Logger: zap.NewNop(),
+		BlockchainConfigHook: func(c *config.Blockchain) {
+			c.StandbyCommittee = hexes
+			c.ValidatorsCount = uint32(n)
+		}})
+	validator := MultiSignerOf(smartcontract.GetDefaultHonestNodeCount(n), ks)
+	majority := MultiSignerOf(smartcontract.GetMajorityHonestNodeCount(n), ks)
+	e := neotest.NewExecutor(t, bc, validator, majority)
+	return &EnvN{Env: &Env{T: t, E: e, BC: bc}, Keys: ks,
+		Alphabet: MultiSignerOf(n*2/3+1, ks), Majority: majority}
+}
+
 // Compile compiles contract <name> from the working tree.
 func (v *Env) Compile(name string) *neotest.Contract {
 	p := filepath.Join(RepoDir, "contracts", name)
-	return neotest.CompileFile(v.T, v.E.CommitteeHash, p, filepath.Join(p, "config.yml"))
+	return v.rehash(neotest.CompileFile(v.T, v.E.Validator.ScriptHash(), p, filepath.Join(p, "config.yml")))
 }
 
 // CompileHelper compiles a helper contract from harness/testdata/<name>.
 func (v *Env) CompileHelper(name string) *neotest.Contract {
 	p := filepath.Join(envOr("VERIF_HARNESS", "/verif/harness"), "testdata", name)
-	return neotest.CompileFile(v.T, v.E.CommitteeHash, p, filepath.Join(p, "config.yml"))
+	return v.rehash(neotest.CompileFile(v.T, v.E.Validator.ScriptHash(), p, filepath.Join(p, "config.yml")))
+}
+
+// rehash recomputes the contract hash for this chain's deployer (neotest
+// caches compiled contracts by path, together with the hash computed for the
+// first chain that asked).
+func (v *Env) rehash(c *neotest.Contract) *neotest.Contract {
+	c2 := *c
+	c2.Hash = state.CreateContractHash(v.E.Validator.ScriptHash(), c.NEF.Checksum, c.Manifest.Name)
+	return &c2
 }
 
 // Result is what one persisted invocation did.
